@@ -16,7 +16,7 @@ import random
 import warnings
 
 from ..obs import ACCESSORS, guarded, is_exc, slots, twin_from_slots, jsonable, Exc
-from ..ops import enc_arg, dec_arg
+from ..ops import enc_arg, dec_arg, IntSub, LoudInt
 
 LEVEL = "exploration"
 RULE = (
@@ -53,7 +53,8 @@ HOSTS = ["example.com", "EXAMPLE.com", "exa mple", "a%zzb", "a%41b", "A_b.é", "
          "::1%a]:x", "fe80::1%e/0", "1.2.3.4%@x1", "fe80::1%\u212a", "bücher/evil.example", "a b.é"]
 USERS = ["u", "a%20b", "a b", "a@b", "a:b", "", None, "é", "%", "U"]
 PASSWORDS = ["p", "", None, "a%20b", "a b", "p:w", "é"]
-PORTS = [None, 0, 80, 443, 8080, 65535, 65536, -1, True]
+# int subclasses hash and compare like the plain value (one lru key) but may render differently: the outcome must not depend on which came first
+PORTS = [None, 0, 80, 443, 8080, 65535, 65536, -1, True, LoudInt(8080), LoudInt(80), IntSub(443), LoudInt(0), 8080, 80]
 PATHS = ["", "/", "/x", "x", "/a b", "/a%20b", "/a/../b", "/%2e", "/é", "/x/y/", "//x", "a:b"]
 FRAGS = ["", "f", "a b", "a%20b", None, "#"]
 SCHEMES = ["http", "https", "HTTP", "foo", "ws", ""]
@@ -368,6 +369,17 @@ class Program:
                 kw["fragment"] = r.choice(["", "f", "a b"])
             if r.random() < 0.15:
                 kw["encoded"] = True
+            pv = dec_arg(kw["port"]) if "port" in kw else None
+            if self.pool and isinstance(pv, int) and not isinstance(pv, bool) and r.random() < 0.6:
+                # equal-valued ports of different TYPES (plain int, int subclass, int subclass with its own str()/format()) share every
+                # cache key: the same build() with the port's type swapped, both results fully read - the order must not matter
+                if r.random() < 0.5:
+                    kw["encoded"] = True
+                alts = [t for t in (int, IntSub, LoudInt) if t is not type(pv)]
+                twin = dict(kw, port=enc_arg(r.choice(alts)(int(pv))))
+                n0 = len(self.pool)
+                self.queued += [{"op": "build", "kw": twin}, {"op": "readall", "x": n0, "seed": r.randrange(1 << 30)}, {"op": "readall", "x": n0 + 1, "seed": r.randrange(1 << 30)},
+                                {"op": "read", "x": n0 + 1, "a": "str"}, {"op": "read", "x": n0, "a": "str"}]
             return {"op": "build", "kw": kw}
         i = self.pick()
         if k < 0.50:
